@@ -11,79 +11,79 @@ package protocol
 // ---------------------------------------------------------------------------------------------
 // sizes that decoders and their callers rely on
 
-//@ func (*VLAN).Len(v) (n) [C08 C06 C13]
+//@ func (*VLAN).Len(v) (n) [C07 C08 C06 C13]
 //@   requires true
 //@   ensures n == 4
 
-//@ func (*Option).Len(o) (n) [C08 C06 C13]
+//@ func (*Option).Len(o) (n) [C07 C08 C06 C13]
 //@   requires true
 //@   ensures n == uint16(o.Length) + 2
 
-//@ func (*HopByHopHeader).Len(h) (n) [C08 C06 C13]
+//@ func (*HopByHopHeader).Len(h) (n) [C07 C08 C06 C13]
 //@   requires true
 //@   ensures n == 8*(uint16(h.HEL) + 1)
 
-//@ func (*RoutingHeader).Len(h) (n) [C08 C06 C13]
+//@ func (*RoutingHeader).Len(h) (n) [C07 C08 C06 C13]
 //@   requires true
 //@   ensures n == 8*(uint16(h.HEL) + 1)
 
-//@ func (*FragmentHeader).Len(h) (n) [C08 C06 C13]
+//@ func (*FragmentHeader).Len(h) (n) [C07 C08 C06 C13]
 //@   requires true
 //@   ensures n == 8
 
-//@ func (*IGMPv3GroupRecord).Len(p) (n) [C08 C13]
+//@ func (*IGMPv3GroupRecord).Len(p) (n) [C07 C08 C13]
 //@   requires true
 //@   ensures n == 8 + uint16(p.AuxDataLen)*4 + p.NumberOfSources*4
 
 // ---------------------------------------------------------------------------------------------
 // decoders: any byte string gives a value or an error, no panic, loops make progress
 
-//@ decoder (*VLAN).UnmarshalBinary(v, data) (err) [C08 C12]
+//@ decoder (*VLAN).UnmarshalBinary(v, data) (err) [C07 C08 C12]
 //@   ensures err == nil ==> len(data) >= 4
 
-//@ decoder (*ARP).UnmarshalBinary(a, data) (err) [C08 C12]
+//@ decoder (*ARP).UnmarshalBinary(a, data) (err) [C07 C08 C12]
 
-//@ decoder (*ICMP).UnmarshalBinary(i, data) (err) [C08 C12]
+//@ decoder (*ICMP).UnmarshalBinary(i, data) (err) [C07 C08 C12]
 
-//@ decoder (*UDP).UnmarshalBinary(u, data) (err) [C08 C12]
+//@ decoder (*UDP).UnmarshalBinary(u, data) (err) [C07 C08 C12]
 
-//@ decoder (*TCP).UnmarshalBinary(t, data) (err) [C08 C12]
+//@ decoder (*TCP).UnmarshalBinary(t, data) (err) [C07 C08 C12]
 
-//@ decoder (*IPv4).UnmarshalBinary(i, data) (err) [C08 C12]
+//@ decoder (*IPv4).UnmarshalBinary(i, data) (err) [C07 C08 C12]
 //@   ensures err == nil ==> wfl(i)
 
-//@ decoder (*Option).UnmarshalBinary(o, data) (err) [C08 C12]
+//@ decoder (*Option).UnmarshalBinary(o, data) (err) [C07 C08 C12]
 //@   ensures err == nil ==> int(o.Length) + 2 <= len(data)
 
-//@ decoder (*HopByHopHeader).UnmarshalBinary(h, data) (err) [C08 C12]
+//@ decoder (*HopByHopHeader).UnmarshalBinary(h, data) (err) [C07 C08 C12]
 //@   ensures err == nil ==> 8*(int(h.HEL) + 1) <= len(data)
 //@   loop 1:
 //@     invariant 2 <= n && n <= len(data)
 //@     decreases 8*(int(h.HEL) + 1) - n
 
-//@ decoder (*RoutingHeader).UnmarshalBinary(h, data) (err) [C08 C12]
+//@ decoder (*RoutingHeader).UnmarshalBinary(h, data) (err) [C07 C08 C12]
 //@   ensures err == nil ==> 8*(int(h.HEL) + 1) <= len(data)
 
-//@ decoder (*FragmentHeader).UnmarshalBinary(h, data) (err) [C08 C12]
+//@ decoder (*FragmentHeader).UnmarshalBinary(h, data) (err) [C07 C08 C12]
 //@   ensures err == nil ==> len(data) >= 8
 
-//@ decoder (*IPv6).UnmarshalBinary(i, data) (err) [C08 C12]
+//@ decoder (*IPv6).UnmarshalBinary(i, data) (err) [C07 C08 C12]
 //@   ensures err == nil ==> wfl(i)
 //@   loop 1:
 //@     invariant checkExtHeader && 40 <= n && n <= len(data)
 //@     decreases len(data) - n
 
-//@ decoder (*Ethernet).UnmarshalBinary(e, data) (err) [C08 C12]
+//@ decoder (*Ethernet).UnmarshalBinary(e, data) (err) [C07 C08 C12]
 //@   ensures err == nil ==> wfl(e)
 
-//@ decoder (*IGMPv1or2).UnmarshalBinary(p, data) (err) [C08 C12]
+//@ decoder (*IGMPv1or2).UnmarshalBinary(p, data) (err) [C07 C08 C12]
 
-//@ decoder (*IGMPv3Query).UnmarshalBinary(p, data) (err) [C08 C12]
+//@ decoder (*IGMPv3Query).UnmarshalBinary(p, data) (err) [C07 C08 C12]
 //@   loop 1:
 //@     invariant 0 <= j && j <= int(p.NumberOfSources) && n == 12 + 4*j && 12 + 4*int(p.NumberOfSources) <= len(data)
 //@     decreases int(p.NumberOfSources) - j
 
-//@ decoder (*IGMPv3GroupRecord).UnmarshalBinary(p, data) (err) [C08 C12]
+//@ decoder (*IGMPv3GroupRecord).UnmarshalBinary(p, data) (err) [C07 C08 C12]
 //@   ensures err == nil ==> 8 + 4*int(p.AuxDataLen) + 4*int(p.NumberOfSources) <= len(data)
 //@   loop 1:
 //@     invariant i <= p.NumberOfSources && n == 8 + 4*int(i) && 8 + 4*int(p.AuxDataLen) + 4*int(p.NumberOfSources) <= len(data)
@@ -92,7 +92,7 @@ package protocol
 //@     invariant i <= p.AuxDataLen && n == 8 + 4*int(p.NumberOfSources) + 4*int(i) && 8 + 4*int(p.AuxDataLen) + 4*int(p.NumberOfSources) <= len(data)
 //@     decreases int(p.AuxDataLen) - int(i)
 
-//@ decoder (*IGMPv3MembershipReport).UnmarshalBinary(p, data) (err) [C08 C12]
+//@ decoder (*IGMPv3MembershipReport).UnmarshalBinary(p, data) (err) [C07 C08 C12]
 //@   loop 1:
 //@     invariant i <= p.NumberOfGroups && 8 <= n && n <= len(data)
 //@     decreases int(p.NumberOfGroups) - int(i)
@@ -100,7 +100,7 @@ package protocol
 // ---------------------------------------------------------------------------------------------
 // DHCP and LLDP decoders (named Write in this package: they consume bytes into the receiver)
 
-//@ func (*DHCP).Write(d, b) (n, err) [C08 C12]
+//@ func (*DHCP).Write(d, b) (n, err) [C07 C08 C12]
 //@   allocbound max(4096, len(b))
 //@   modifies *d
 //@   own noalias
@@ -111,25 +111,25 @@ package protocol
 //@     invariant 0 <= pos && pos <= len(in)
 //@     decreases len(in) - pos
 
-//@ func (*ChassisTLV).Write(t, b) (n, err) [C08 C12]
+//@ func (*ChassisTLV).Write(t, b) (n, err) [C07 C08 C12]
 //@   allocbound max(4096, len(b))
 //@   modifies *t
 //@   own noalias
 //@   ensures 0 <= n && n <= len(b)
 
-//@ func (*PortTLV).Write(t, b) (n, err) [C08 C12]
+//@ func (*PortTLV).Write(t, b) (n, err) [C07 C08 C12]
 //@   allocbound max(4096, len(b))
 //@   modifies *t
 //@   own noalias
 //@   ensures 0 <= n && n <= len(b)
 
-//@ func (*TTLTLV).Write(t, b) (n, err) [C08 C12]
+//@ func (*TTLTLV).Write(t, b) (n, err) [C07 C08 C12]
 //@   allocbound max(4096, len(b))
 //@   modifies *t
 //@   own noalias
 //@   ensures 0 <= n && n <= len(b)
 
-//@ func (*LLDP).Write(d, b) (n, err) [C08 C12]
+//@ func (*LLDP).Write(d, b) (n, err) [C07 C08 C12]
 //@   allocbound max(4096, len(b))
 //@   modifies *d
 //@   own noalias
